@@ -356,6 +356,63 @@ func main() {
 			})
 		})
 
+		// The streaming reader used as a header decoder only: the caller takes every payload straight
+		// from the connection (a control handler given the connection as its source does, so does a
+		// caller that splices payloads elsewhere) and comes back to NextFrame for the next header.
+		// Decoding consumes "not one byte beyond" the header, so each header comes out as
+		// ws.ReadHeader decodes it at that position.
+		r.Part("E9-reader-as-header-decoder-payloads-taken-from-the-connection", func(t *explore.T) {
+			lens := []int{0, 1, 5, 125, 126, 300}
+			ops := []byte{1, 2, 9, 10}
+			for _, masked := range []bool{false, true} {
+				for _, l1 := range lens {
+					for _, l2 := range lens {
+						for _, op1 := range ops {
+							if op1 >= 8 && l1 > 125 {
+								continue
+							}
+							masked, l1, l2, op1 := masked, l1, l2, op1
+							t.Do(func() string {
+								return fmt.Sprintf("frames op%x(%d bytes) op2(%d bytes) op1(3 bytes), masked=%v: NextFrame, payload read from the source, NextFrame ...", op1, l1, l2, masked)
+							}, func() *explore.Fail {
+								var hs []refmodel.Hdr
+								var data []byte
+								for i, f := range []struct {
+									op byte
+									n  int
+								}{{op1, l1}, {2, l2}, {1, 3}} {
+									h := refmodel.Hdr{Fin: true, Op: f.op, Masked: masked, Mask: masks[i%len(masks)], Len: uint64(f.n)}
+									hs = append(hs, h)
+									data = append(data, refmodel.HdrEncode(h)...)
+									data = append(data, bytes.Repeat([]byte{0x80 | byte(i)}, f.n)...)
+								}
+								src := env.NewSrc(data)
+								rd := &wsutil.Reader{Source: src, State: ws.StateServerSide, SkipHeaderCheck: true}
+								for i, want := range hs {
+									at := src.Off
+									h, err := rd.NextFrame()
+									if err != nil {
+										return explore.Failf("header-decoder-use:frame-refused", "frame %d at offset %d: %v", i, at, err)
+									}
+									if !sameHdr(h, want) {
+										return explore.Failf("header-decoder-use:wrong-header", "frame %d at offset %d: got %+v want %v", i, at, h, want)
+									}
+									if src.Off != at+len(refmodel.HdrEncode(want)) {
+										return explore.Failf("header-decoder-use:consumed-beyond-the-header", "frame %d: source at %d, header ends at %d", i, src.Off, at+len(refmodel.HdrEncode(want)))
+									}
+									if _, err := io.ReadFull(src, make([]byte, want.Len)); err != nil {
+										return explore.Failf("harness-payload", "%v", err)
+									}
+								}
+								return nil
+							})
+						}
+					}
+				}
+			}
+			t.Outcome("ok")
+		})
+
 		r.Part("E3-whole-frames", func(t *explore.T) {
 			// every payload length up to 4200 (past the usual MTU- and page-sized staging buffers),
 			// windows around the larger powers of two, and a few large ones
